@@ -1,6 +1,6 @@
 (* PEL commands of the extracted binary: generators (spec side) and the decode model. *)
 From Coq Require Import List NArith ZArith Bool Arith.
-From PV Require Import Base.Bytes Base.Lit Base.Json Base.Utf8 Base.PelTypes Model.Hexdump Model.Parse Model.Render Model.Pel Model.Env Model.Pretty Model.Select
+From PV Require Import Base.Bytes Base.Lit Base.Json Base.Utf8 Base.PelTypes Model.Hexdump Model.Parse Model.Render Model.Pel Model.Env Model.Pretty Model.Select Model.Hwdiags
                        Spec.Encode Spec.DocOf Spec.Choice Spec.PublishedTables.
 Import ListNotations.
 Open Scope N_scope.
@@ -35,10 +35,12 @@ Definition spec_plugins0 : spec_plugins :=
        if text_eqb creator (L "O") || text_eqb creator (L "o") then
          match assoc_t Spec.PublishedTables.ocallouts_procedures proc with Some l => Some (strs l) | None => None end
        else None;
-     sp_src_details := fun creator refcode _ =>
+     sp_src_details := fun creator refcode _ws =>
        if (text_eqb creator (L "O") || text_eqb creator (L "o")) && negb (text_eqb (firstn 2 refcode) (L "BC"))
           && text_eqb (map lower_c (firstn 2 (skipn 4 refcode))) (L "e5")
-       then Some (JStr (L "@unsupported")) else None;
+       then (* the hardware-diagnostics SRC parser: its rendering is specified and proved under C20 *)
+            match Model.Hwdiags.oe500_src [] refcode _ws with Model.Hwdiags.HwOk j => Some j | _ => None end
+       else None;
      sp_ud := fun _ _ _ _ _ => None |}.
 
 Fixpoint offsets (start : N) (l : list section_t) : list N :=
